@@ -32,14 +32,18 @@ KEYCELL = st.one_of(gen.keyish, gen.keyish, gen.keyish, gen.hvalue)
 def hj_case(draw, tier):
     maxrows = 6 if tier == "quick" else 14
     fn = draw(st.sampled_from(sorted(PAIRS)))
-    keyform = draw(st.sampled_from(["key1", "key2", "lr1", "lr2", "natural1"]))
+    keyform = draw(st.sampled_from(["key1", "key2", "lr1", "lr2", "natural1", "natural2", "key1-tuple", "index0"]))
     nk = 2 if keyform.endswith("2") else 1
     lk = ["k", "j"][:nk]
     rk = ["k2", "j2"][:nk] if keyform.startswith("lr") else list(lk)
     lextra = draw(st.lists(st.sampled_from(["a", "b"]), max_size=2, unique=True))
-    rextra = draw(st.lists(st.sampled_from(["c", "d"]), max_size=2, unique=True))
+    # (a non-key field name may occur on both sides, unless the key is the natural one)
+    rextra = draw(st.lists(st.sampled_from(["c", "d"] if keyform.startswith("natural") else ["c", "d", "a"]), max_size=2, unique=True))
     lh = draw(st.permutations(lk + lextra))
     rh = draw(st.permutations(rk + rextra))
+    if keyform == "index0":
+        lh = [lk[0]] + [f for f in lh if f != lk[0]]
+        rh = [rk[0]] + [f for f in rh if f != rk[0]]
     p = draw(gen.twinned_pool(KEYCELL, 2, 4))
     kc = st.sampled_from(p)
     vc = st.one_of(st.sampled_from(p), st.integers(0, 3))
@@ -49,12 +53,17 @@ def hj_case(draw, tier):
     Rt = draw(gen.table(list(rh), [kc if f in rk else vc for f in rh], max_rows=0 if draw(st.integers(0, 9)) == 0 else maxrows,
                         ragged=ragged, extra=st.integers(0, 3)))
     c = {"fn": fn, "left": L, "right": Rt, "keyform": keyform, "passes": draw(st.sampled_from([2, 1, 3]))}
-    if keyform.startswith("key"):
+    if keyform == "index0":
+        c["key"] = 0
+    elif keyform == "key1-tuple":
+        c["key"] = (lk[0],)
+    elif keyform.startswith("key"):
         c["key"] = lk[0] if nk == 1 else tuple(lk)
     elif keyform.startswith("lr"):
         c["lkey"] = lk[0] if nk == 1 else tuple(lk)
-        c["rkey"] = rk[0] if nk == 1 else tuple(rk)
-    if fn in ("hashleftjoin", "hashrightjoin", "hashlookupjoin"):
+        c["rkey"] = rk[0] if nk == 1 else list(rk)
+    if fn in ("hashleftjoin", "hashrightjoin", "hashlookupjoin") or (fn == "hashjoin" and draw(st.booleans())):
+        # (hashjoin documents missing= as well: the value short rows are filled with; join has no such argument)
         c["missing"] = draw(st.sampled_from([None, None, "M", 0, ""]))
     if fn in ("hashjoin", "hashleftjoin", "hashrightjoin"):
         c["cache"] = draw(st.booleans())
@@ -144,7 +153,17 @@ def check_hj(case, ctx):
         if not R.same_multiset(got[1:], exp):
             return Fail(fn + "/rows", "%s(%r, %r, %r) gave %r, reference %r" % (fn, L, Rt, kw, got[1:], exp))
         return Fail(fn + "/order", "%s(%r, %r, %r) gave %r, expected streamed order %r" % (fn, L, Rt, kw, got[1:], exp_seq))
+    if not codec.strict_eq(got[1:], exp_seq):
+        # == is not enough where 1, 1.0 and True are keys: a matched row carries the LEFT table's cells followed by the right
+        # table's non-key cells (an unmatched right row its own key)
+        return Fail(fn + "/cell-origin", "%s(%r, %r, %r) gave %r, the cells should be %r" % (fn, L, Rt, kw, got[1:], exp_seq))
     # differential against the merge join
+    if fn == "hashjoin" and mkw.get("missing") is not None:
+        # join() always squares up with None: comparable only when no row needed filling
+        if any(len(r) < len(t[0]) for t in (L, Rt) for r in t[1:]):
+            return None
+    if fn == "hashjoin":
+        mkw = {k: v for k, v in mkw.items() if k != "missing"}
     try:
         mg = [tuple(r) for r in getattr(etl, mfn)(codec.snapshot(L), codec.snapshot(Rt), **mkw)]
     except Exception as ex:
